@@ -1,6 +1,8 @@
 package main
 
 import (
+	"strconv"
+	"go/constant"
 	"fmt"
 	"go/ast"
 	"go/token"
@@ -549,6 +551,9 @@ func (fv *FuncVC) evalFuncCall0(call *ast.CallExpr, f *types.Func, st *State) []
 				fv.oblig(st, "post", fmt.Sprintf("callarg:%s@%d:%d", full, k, ca.Idx), fmt.Sprintf("argument %d of call %d to %s is %s", ca.Idx, k, full, ca.Text), fv.eqVals(args[ca.Idx], want))
 			}
 		}
+	}
+	if fv.fi.Contract != nil && fv.mode == "full" && len(fv.fi.Contract.CallVerbs) > 0 && len(call.Args) > 0 {
+		fv.callVerbObligations(call, full, args, st)
 	}
 	// 0. method of a repository interface declared pure (`//@ puremethod I.M`): an uninterpreted function of the receiver
 	if key, ok := fv.pureMethodKey(f); ok {
@@ -1196,4 +1201,104 @@ func (fv *FuncVC) growAlloc(st *State) {
 	st.heaps["alloc"] = n
 	fv.addFact(st, "(not (select "+n+" nil))")
 	fv.addFact(st, fmt.Sprintf("(forall ((r Ref)) (! (=> (select %s r) (select %s r)) :pattern ((select %s r)) :pattern ((select %s r))))", oldAlloc, n, oldAlloc, n))
+}
+
+// formatVerbs normalises a fmt format: every verb is rewritten as %s; verbArg[i] is the 1-based operand index the
+// i-th verb consumes (explicit %[n] indexes and Go's "next operand" rule), verbPos[i] its offset in the result.
+func formatVerbs(format string) (norm string, verbArg []int, verbPos []int) {
+	var b strings.Builder
+	next := 1
+	for i := 0; i < len(format); i++ {
+		c := format[i]
+		if c != '%' {
+			b.WriteByte(c)
+			continue
+		}
+		if i+1 < len(format) && format[i+1] == '%' {
+			b.WriteString("%%")
+			i++
+			continue
+		}
+		j := i + 1
+		arg := 0
+		for j < len(format) {
+			d := format[j]
+			if d == '[' {
+				k := strings.IndexByte(format[j:], ']')
+				if k < 0 {
+					break
+				}
+				n, err := strconv.Atoi(format[j+1 : j+k])
+				if err == nil {
+					arg = n
+				}
+				j += k + 1
+				continue
+			}
+			if strings.ContainsRune("+-# 0123456789.*", rune(d)) {
+				j++
+				continue
+			}
+			break
+		}
+		if j >= len(format) {
+			b.WriteString(format[i:])
+			break
+		}
+		if arg == 0 {
+			arg = next
+		}
+		next = arg + 1
+		verbPos = append(verbPos, b.Len())
+		verbArg = append(verbArg, arg)
+		b.WriteString("%s")
+		i = j
+	}
+	return b.String(), verbArg, verbPos
+}
+
+func (fv *FuncVC) callVerbObligations(call *ast.CallExpr, full string, args []Val, st *State) {
+	tv, ok := fv.info.Types[call.Args[0]]
+	if !ok || tv.Value == nil || tv.Value.Kind() != constant.String {
+		return
+	}
+	// runs of white space count as one space (templates are indented freely)
+	norm, verbArg, verbPos := formatVerbs(strings.Join(strings.Fields(constant.StringVal(tv.Value)), " "))
+	for ci, cv := range fv.fi.Contract.CallVerbs {
+		if cv.Callee != full {
+			continue
+		}
+		off := strings.Index(cv.Context, "%s")
+		from := 0
+		for {
+			p := strings.Index(norm[from:], cv.Context)
+			if p < 0 {
+				break
+			}
+			p += from
+			from = p + 1
+			// the verb of interest sits at p+off
+			idx := -1
+			for vi, vp := range verbPos {
+				if vp == p+off {
+					idx = verbArg[vi]
+				}
+			}
+			if idx < 0 || idx >= len(args) || idx >= len(call.Args) {
+				continue
+			}
+			if fv.callVerbHits == nil {
+				fv.callVerbHits = map[int]int{}
+			}
+			fv.callVerbHits[ci]++
+			want := fv.specEval(cv.Expr, fv.specScope(st, fv.entry, false))
+			if args[idx].S == SRef && want.S != SRef && want.GoT != nil {
+				if at := fv.typeOf(call.Args[idx]); at != nil {
+					want = fv.box(Val{want.T, want.S, at}, at, types.NewInterfaceType(nil, nil), st)
+				}
+			}
+			n := fv.nextOrd("callverb:" + cv.Context)
+			fv.oblig(st, "post", fmt.Sprintf("callverb:%s:%q@%d", full, cv.Context, n), fmt.Sprintf("in the text %q emitted by %s, the value printed is %s", cv.Context, full, cv.Text), fv.eqVals(args[idx], want))
+		}
+	}
 }
